@@ -11,19 +11,32 @@ func ciStr(s string) model.CIStr { return model.NewCIStr(s) }
 // merger: Fields with MySQL's result types, text-protocol RowDatas, and Values produced
 // from those rows by Gaea's own RowData.ParseText.
 func (r *Rel) Result() (*mysql.Result, error) {
-	rs := &mysql.Resultset{FieldNames: map[string]int{}}
-	for i, n := range r.Names {
-		f := &mysql.Field{Name: []byte(n), OrgName: []byte(n), Type: r.Types[i].MySQLType(), Charset: 33}
-		if r.Types[i].K == KDec {
-			f.Decimal = uint8(r.Types[i].Scale)
+	rs := &mysql.Resultset{}
+	if r.prep != nil && r.prep.flds != nil && len(r.prep.flds) == len(r.Names) {
+		// the field list of a statement is static; Gaea's merger never writes into a
+		// Field or the name map, so every result of the statement shares them (each
+		// result gets its own slice, which the merger does re-slice)
+		rs.Fields = append(make([]*mysql.Field, 0, len(r.Names)), r.prep.flds...)
+		rs.FieldNames = r.prep.names
+	} else {
+		rs.FieldNames = map[string]int{}
+		for i, n := range r.Names {
+			f := &mysql.Field{Name: []byte(n), OrgName: []byte(n), Type: r.Types[i].MySQLType(), Charset: 33}
+			if r.Types[i].K == KDec {
+				f.Decimal = uint8(r.Types[i].Scale)
+			}
+			rs.Fields = append(rs.Fields, f)
+			rs.FieldNames[n] = i
 		}
-		rs.Fields = append(rs.Fields, f)
-		rs.FieldNames[n] = i
+		if r.prep != nil {
+			r.prep.flds = append([]*mysql.Field{}, rs.Fields...)
+			r.prep.names = rs.FieldNames
+		}
 	}
 	rs.Values = make([][]interface{}, 0, len(r.Rows))
 	rs.RowDatas = make([]mysql.RowData, 0, len(r.Rows))
 	for _, row := range r.Rows {
-		var rd []byte
+		rd := make([]byte, 0, 48)
 		for i, v := range row {
 			b := Text(v, r.Types[i])
 			if v == nil {
